@@ -152,7 +152,12 @@ def factForms : List String :=
     "cli reload precheck signals-only-on=" ++ ",".intercalate acc ++ " needs-readable=1 else=returns-without-signal !fact",
     "cli reload abortmarker=after-precheck !fact",
     "cli reload stops-waiting-on=ReloadBusy,ReloadDone,ReloadError !fact",
-    "cli suspend reads-progress=0 abortmarker=1 !fact" ]
+    "cli suspend reads-progress=0 abortmarker=1 !fact",
+    -- where the request's arrival time and abort decision come from and where they go (model: reqAt /
+    -- metaAt / wAbort → retScenarioOf)
+    "flow signals queue{requestedAt:time.Now(),abort:takeAbortMarker()}*2 !fact",
+    "flow worker setmeta(req.requestedAt,req.requestedAtMono)*1 setstaged(req.requestedAt,req.requestedAtMono){abort:req.abortConnections,overlap:InheritDialerHealthFrom}*2 startret(req.abortConnections,InheritDialerHealthFrom)*1 !fact",
+    "flow handler startret(handoff.abortConnections,handoff.hasOverlap)*1 !fact" ]
 
 def regionForms : String → Option (List String)
   | "worker" => some workerForms
@@ -187,8 +192,12 @@ def retireLine (toks : List String) : Option String := do
   let sc : RetScenario := ⟨zero == "1", abort == "1", overlap == "1", age, n, idle, cancel⟩
   -- the whole chain in the transition system: a reload about to succeed, the retirement step, the
   -- hand-over of the release to a goroutine, exactly `retireDoneAt` of model time, completion, release
+  -- the scenario's age / zero start / abort are state of the system itself (request time recorded in the
+  -- manager, abort decision of the request being processed), not choices of the environment
   let s0 : St := { pending := true, active := true, suppress := 1, progress := .done, nextRet := sc,
-                   m := [.startRet, .finishSucc] }
+                   m := [.startRet, .finishSucc], wAbort := sc.abort,
+                   now := if age < 0 then 0 else age.toNat,
+                   metaAt := if sc.zeroStart then none else some (if age < 0 then (-age).toNat else 0) }
   let fin := fun (s : St) => s!"p={b01 s.pending} a={b01 s.active} s={s.suppress} f={progStr s.progress}"
   match runActs s0 [.stepM, .stepM] with
   | some s1 =>
@@ -208,6 +217,103 @@ def retireLine (toks : List String) : Option String := do
     | none => some "disabled"
   | none => some "disabled"
 
+
+/-! ### a whole reload with a clock: signal → queue → worker → (ready wait) → retirement → release → next signal -/
+
+def stepN (a : Act) : Nat → St → Option St
+  | 0, s => some s
+  | n + 1, s => (step s a).bind (stepN a n)
+
+def untilM (p : St → Bool) : Nat → St → Option St
+  | 0, s => some s
+  | n + 1, s => if p s then some s else (step s .stepM).bind (untilM p n)
+
+def untilW (p : St → Bool) : Nat → St → Option St
+  | 0, s => some s
+  | n + 1, s => if p s then some s else (step s .stepW).bind (untilW p n)
+
+/-- release goroutines that are not blocked run to their end (nothing gates them in production). -/
+def settleG : Nat → St → St
+  | 0, s => s
+  | n + 1, s =>
+    let a := if 0 < s.gStore then some Act.gStore else if 0 < s.gEnd then some Act.gEnd
+      else if 0 < s.gRead then some Act.gRead else if 0 < s.gWrite then some Act.gWrite else none
+    match a with
+    | none => s
+    | some a => match step s a with
+      | some s' => settleG n s'
+      | none => s
+
+/-- let `d` ns pass; a retirement whose remaining time is at most `d` completes on the way (and the
+release goroutine waiting for it runs its clean-up). -/
+def advance (s : St) (d : Nat) : Option St :=
+  let s := settleG 16 s
+  if s.retDone = some false && decide (s.mgrLeft ≤ d) then do
+    let s1 ← step s (.tick s.mgrLeft)
+    let s2 ← step s1 .closeMgr
+    step s2 (.tick (d - s.mgrLeft))
+  else if decide (0 < s.gBlocked) && decide (s.gLeft ≤ d) then do
+    let s1 ← step s (.tick s.gLeft)
+    let s2 ← step s1 .closeG
+    step (settleG 16 s2) (.tick (d - s.gLeft))
+  else step s (.tick d)
+
+/-- one reload whose request sits in the queue: `d1` in the queue, `d2` for config load + prepare,
+`d3` in the serve-ready wait; full reload (retirement started by the worker) or staged hand-off
+(retirement started by the run-state handler after the wait). -/
+def chainRound (s : St) (staged : Bool) (d1 d2 d3 : Nat) (sc : RetScenario) : Option (St × String) := do
+  let s ← advance s d1
+  let s ← step s (.chooseRet sc)
+  let s ← step s (.wStart (if staged then 2 else 4))
+  let s ← stepN .stepW 5 s
+  let s ← advance s d2
+  -- the worker up to (not including) its startControlPlaneRetirement, if it has one
+  let s ← untilW (fun t => t.w.isEmpty || t.w.head? == some .startRet) 40 s
+  let info1 := if s.w.head? == some .startRet then
+      some (s.now - s.reqAt, retireDoneAt (retScenarioOf s), retireAborted (retScenarioOf s)) else none
+  let s ← untilW (fun t => t.w.isEmpty) 40 s
+  let s ← step s (.wake (if staged then 7 else 5))
+  let s ← untilM (fun t => t.m.head? == some .waitReady) 40 s
+  let s ← advance s d3
+  let s ← step s .stepM
+  let s ← untilM (fun t => t.m.isEmpty || t.m.head? == some .startRet) 40 s
+  let info2 := if s.m.head? == some .startRet then
+      some (s.now - s.reqAt, retireDoneAt (retScenarioOf s), retireAborted (retScenarioOf s)) else none
+  let s ← untilM (fun t => t.m.isEmpty) 40 s
+  let (age, dn, ab) ← (info1 <|> info2)
+  pure (s, s!"age={age} done={dn} aborted={"|".intercalate (ab.eraseDups.map b01)}")
+
+def probeStr (s0 s : St) : String :=
+  if s0.pending then s!"refused:{progStr s.progress}" else if s.pending && s.queue.length == 1 then "accepted" else "lost"
+
+def chainLine (toks : List String) : Option String := do
+  let mark := (kv toks "mark").getD "0"
+  let rd := fun (sfx : String) => do
+    let st ← kv toks ("s" ++ sfx)
+    if st == "x" then pure none else
+    let d1 ← (← kv toks ("d1" ++ sfx)).toNat?; let d2 ← (← kv toks ("d2" ++ sfx)).toNat?
+    let d3 ← (← kv toks ("d3" ++ sfx)).toNat?
+    let o ← kv toks ("o" ++ sfx); let n ← (← kv toks ("n" ++ sfx)).toNat?
+    let i ← optTime? (← kv toks ("i" ++ sfx))
+    pure (some (st == "1", d1, d2, d3, (⟨false, false, o == "1", 0, n, i, none⟩ : RetScenario)))
+  let ra ← rd "a"
+  let rb ← rd "b"
+  let probe ← (← kv toks "probe").toNat?
+  let (sta, d1, d2, d3, sc) ← ra
+  let s ← runActs init ((if mark == "1" then [.cliMark] else []) ++ [.sig .reload, .stepM, .stepM])
+  let (s, outA) ← chainRound s sta d1 d2 d3 sc
+  -- the next signal, `probe` ns after the hand-off finished
+  let s ← advance s probe
+  let s1 ← runActs s [.sig .suspend, .stepM, .stepM]
+  let pr := probeStr s s1
+  match rb with
+  | none => pure (outA ++ s!" probe={pr} final=p={b01 s1.pending} a={b01 s1.active} s={s1.suppress} f={progStr s1.progress}")
+  | some (stb, e1, e2, e3, scb) =>
+    if !(s1.pending && !s.pending) then pure (outA ++ s!" probe={pr} second=not-run") else
+    let (s2, outB) ← chainRound s1 stb e1 e2 e3 scb
+    let s3 ← advance s2 (totalSwitchBudget + 1)
+    pure (outA ++ s!" probe={pr} second: " ++ outB ++ s!" final=p={b01 s3.pending} a={b01 s3.active} s={s3.suppress} f={progStr s3.progress}")
+
 def retOp (ws : List String) : Option String :=
   match ws with
   | ["const", "total"] => some s!"total={totalSwitchBudget}"
@@ -222,6 +328,7 @@ def retOp (ws : List String) : Option String :=
     let idle ← optTime? (← kv toks "idle"); let cancel ← optTime? (← kv toks "cancel")
     pure (s!"at={drainTime mw n idle cancel} res=" ++ "|".intercalate ((drainResults mw n idle cancel).map resStr))
   | "retire" :: toks => retireLine toks
+  | "chain" :: toks => some ((chainLine toks).getD "disabled")
   | "rwait" :: toks => do
     let tmo ← (← kv toks "timeout").toInt?
     let rep ← optTime? (← kv toks "report"); let ok := (kv toks "ok").getD "1"
@@ -274,6 +381,13 @@ def act? : List String → Option Act
   | ["gend"] => some .gEnd
   | ["gread"] => some .gRead
   | ["gwrite"] => some .gWrite
+  -- the same steps with the progress-file operation inside failing
+  | ["mf"] => some .stepMF
+  | ["wf"] => some .stepWF
+  | ["greadf"] => some .gReadF
+  | ["gwritef"] => some .gWriteF
+  | ["swallowf", k] => (kind? k).map .swallowF
+  | ["clifail"] => some .cliFail
   | _ => none
 
 /-- `a ; b ; c` — several actions the real code cannot separate (no hook in between). -/
@@ -288,7 +402,10 @@ def handle (d : DState) (line : String) : DState × String :=
   | ["reset"] => ({ d with st := init }, stStr init)
   | ["quiet?"] =>
     let q := quiescent d.st
-    (d, s!"quiescent={b01 q} stuck={b01 (q && !d.st.exited && (d.st.pending || d.st.suppress != 0 || d.st.progress.isBusy || d.st.active || d.st.reloading))}")
+    let live := q && !d.st.exited
+    -- `stuck`: a flag or the muting counter is left up; `stale`: the file still says busy (legitimate
+    -- only after a failed progress-file operation, see `never_wedged_under_io_faults`)
+    (d, s!"quiescent={b01 q} stuck={b01 (live && (d.st.pending || d.st.suppress != 0 || d.st.active || d.st.reloading))} stale={b01 (live && d.st.progress.isBusy)}")
   | "path" :: region :: rest =>
     match regionForms region with
     | some forms =>
